@@ -48,6 +48,16 @@ CONDS = [
     ("utils/session.c", "create_session", "cs_start_gt", ["s_start_time", "msg_task_time"], 2),
 ]
 
+# right-hand sides of assignments `x->field = e` inside a function: (file, function, coq name, coq args, field, k)
+# translates the RHS of the k-th assignment (pre-order) to a member named `field`
+ASSIGNS = [
+    ("utils/symbol.c", "load_dyn_symbol", "dyn_addr_canonical", ["iter_sym_st_value", "offset"], "addr", 0),
+    ("utils/symbol.c", "load_dyn_symbol", "dyn_addr_next_slot", ["prev_addr", "plt_entsize"], "addr", 1),
+]
+CONDS2 = [
+    ("utils/symbol.c", "load_dyn_symbol", "dyn_is_canonical", ["iter_sym_st_value", "iter_sym_st_shndx"], 1),
+]
+
 INT_TYPES = {
     "unsigned long": (False, 64), "unsigned long long": (False, 64), "uint64_t": (False, 64),
     "unsigned int": (False, 32), "unsigned": (False, 32), "uint32_t": (False, 32),
@@ -156,7 +166,7 @@ class Tr:
                 break
             if b.get("isArrow") and inner["kind"] == "DeclRefExpr" and is_ptr(inner):
                 ity(n)
-                return self.inp("_".join([inner["referencedDecl"]["name"]] + path[::-1]))
+                return self.inp("_".join([inner["referencedDecl"]["name"]] + [x for x in path[::-1] if x]))
             raise Unsupported("member access that is not var->field[.field]")
         if k == "MemberExpr":
             base = strip_casts(n["inner"][0])
@@ -308,6 +318,30 @@ def if_stmts(node, out):
     return out
 
 
+def assigns_to(node, field, out):
+    if node.get("kind") == "BinaryOperator" and node.get("opcode") == "=":
+        lhs = node["inner"][0]
+        if lhs.get("kind") == "MemberExpr" and lhs.get("name") == field:
+            out.append(node)
+    for c in node.get("inner", []) or []:
+        if isinstance(c, dict):
+            assigns_to(c, field, out)
+    return out
+
+
+def assign_kernel(fn, coqname, args, field, k):
+    asg = assigns_to(fn, field, [])
+    if k >= len(asg):
+        raise Unsupported("%s has only %d assignments to ->%s (wanted #%d)" % (fn["name"], len(asg), field, k))
+    tr = Tr(fn, args)
+    tr.anyptr = True
+    term = tr.expr(asg[k]["inner"][1])
+    missing = [a for a in args if a not in tr.used]
+    if missing:
+        raise Unsupported("assignment #%d to ->%s in %s no longer depends on %s" % (k, field, fn["name"], missing))
+    return "Definition %s (%s : Z) : Z :=\n  %s.\n" % (coqname, " ".join(args), term)
+
+
 def cond_kernel(fn, coqname, args, k):
     ifs = if_stmts(fn, [])
     if k >= len(ifs):
@@ -411,6 +445,14 @@ def main():
             fn = ast_of(path, fname)
             v.append("(* %s:%s, condition of if #%d *)" % (path, fname, k))
             v.append(cond_kernel(fn, coqname, args, k))
+        for path, fname, coqname, args, k in CONDS2:
+            fn = ast_of(path, fname)
+            v.append("(* %s:%s, condition of if #%d *)" % (path, fname, k))
+            v.append(cond_kernel(fn, coqname, args, k))
+        for path, fname, coqname, args, field, k in ASSIGNS:
+            fn = ast_of(path, fname)
+            v.append("(* %s:%s, assignment #%d to ->%s *)" % (path, fname, k, field))
+            v.append(assign_kernel(fn, coqname, args, field, k))
         fn = ast_of("libmcount/wrap.c", "dlopen")
         v.append("(* libmcount/wrap.c:dlopen - is the clock (mcount_gettime) read before real_dlopen() is called? *)")
         v.append("Definition wrap_dlopen_clock_first : bool := %s.\n"
